@@ -281,6 +281,26 @@ CHECKS["C17"] = dict(
     technique="Lean 4 proof (decide on tables translated from the C++ against a documented-order spec written in Lean: argument->member->key composition, both spellings, required command set) + two translators + end-to-end Lua-vs-file comparison on the real tools",
 )
 
+CHECKS["C07"] = dict(
+    category="proof",
+    text=("Lean theorems over Model/Periodic.lean (the mesher's identical subdivision of the two partners and its pair list) and "
+          "Model/Sparse.lean: the pair list of k subdivisions has k+1 entries whose first / second components are exactly the "
+          "node chains of the first / second partner, each node once; the j-th interior node of the second partner is the image "
+          "of the j-th of the first under ANY affine map taking end points to end points (so under the rigid motion mapping the "
+          "two), for every k; nodes created on an arc lie on its circle, consecutive chords are equal, and the nodes of the "
+          "second arc are the images of the first's under the rigid motion; self pairs (apex of a rotational cell): "
+          "AntiPeriodicity(i,i) cuts row and column i out of the system with a zero right-hand side (value 0 = -0), "
+          "Periodicity(i,i) is the identity; with the C09 theorems that the solution of the modified system is equal / opposite "
+          "on every tied pair i != j. Tied to the code by comparing the interior nodes of straight partners in the real .node / "
+          ".pbc with the model at Float, bit for bit. Decided on the real mesher and solvers: translational cells (one pair, two "
+          "pairs sharing corners), rotational sectors (apex self pair, shaft hole), congruent arc sides x three physics x "
+          "periodic / antiperiodic: every mesh node on a partner listed exactly once against its image under the drawn rigid "
+          "motion with the right sign, nothing else listed, solved potentials of every listed pair equal / opposite (1e-6; "
+          "self pairs exactly), invalid assignments rejected."),
+    design_ref="DESIGN.md section 3, C07",
+    technique="Lean 4 proof (pair-list bookkeeping by list lemmas, affine-image and rotation identities by ring, self-pair row isolation over the sparse model) + bit-exact Float correspondence of subdivision nodes + geometric pairing oracle and solution-repeat check on the real mesher and solvers",
+)
+
 NOT_YET = "check not built yet in this round; planned per DESIGN.md section 3 (Lean model + correspondence)"
 
 
